@@ -164,7 +164,7 @@ def law_cases(ctx, sis, exhaustive_n, n_random):
                 out.append(dict(n=n, order=list(range(n)), edges=edges, directed=False, ew=None, nw=None, sis=sis,
                                 tau="1", gamma=str(ctx.rng.choice([F(1, 2), F(1), F(2)])), init=dict(kind="list", nodes=infs), recs=recs))
     for _ in range(n_random):
-        c = sims.graph_case(ctx.rng, 2, 4, weighted_e=ctx.rng.random() < 0.7, weighted_n=ctx.rng.random() < 0.7)
+        c = sims.graph_case(ctx.rng, 2, 4, weighted_e=ctx.rng.random() < 0.7, weighted_n=ctx.rng.random() < 0.7, zero_w=ctx.rng.random() < 1 / 3)
         n = c["n"]
         code = [ctx.rng.choice("SIR" if not sis else "SI") for _ in range(n)]
         code[ctx.rng.randrange(n)] = "I"
